@@ -4,7 +4,7 @@ import evupdgen
 
 PROP = Property(
     pid="C11",
-    properties_v=["Properties/Properties_C11.v", "Properties/Properties_C11_evupd.v"],
+    properties_v=["Properties/Properties_C11.v", "Properties/Properties_C11_evupd.v", "Properties/Properties_C11_reinit.v"],
     coq_targets=["Extract/Extract_Locks.vo", "Extract/Extract_EvUpdates.vo"],
     engines=[Engine(name="tstress", c_srcs=["harness/thread_stress_drv.c"], variant="tsan",
                     ml_srcs=["ocaml/gen/LocksModel.ml", "ocaml/tstress_drv.ml"],
@@ -17,9 +17,11 @@ PROP = Property(
                   "whitelists in coq/Core/LockDiscipline.v (exclusive-by-contract functions, immutable-after-init fields, stateless callees)",
                   "harness/thread_stress_drv.c + ThreadSanitizer (search for a concrete failing schedule; not a proof)",
                   "harness/evupd_drv.c: the library's ares_event_thread.c compiled into the driver, recording event backend; ocaml/evupd_drv.ml (monitor on the implementation's trace)",
+                  "gen/regen.d/reinit_facts.py: textual reading of ares_reinit_thread (actions in source order; callees that take the channel lock found by text search) and of the statement order in ares_reinit",
                   "extraction (ExtrOcamlBasic) + OCaml 4.13.1"],
     assumptions=["entry points are abstracted to their lock actions and channel-field accesses; races below the lock level (libc, OS, memory model) are not modelled",
                  "real schedules are only sampled (TSan stress with optional yield hook)",
+                 "reload protocol: the client side (ares_reinit) is modelled by hand, only the order of its statements is read off the source; ares_destroy's join (without the lock) is not in the model",
                  "registration model: allocation in ares_event_update and the backend's event_add are assumed to succeed; the kernel forgets a closed socket's registration (epoll/kqueue), descriptor numbers may be reused at once"],
     rule="client threads issuing queries/searches/getaddrinfo/cancel/set-servers/reinit/save-options/get-servers/timeout against a live event thread on each backend; non-trivial = at least two requests issued; distinct by case text || event-handle registration: socket-state callbacks, raw updates and drains over a small pool of descriptor numbers (closed and reused before the drain); non-trivial = at least one drain",
 )
